@@ -137,7 +137,7 @@ theorem toMarrow_readAny_partial (ext : Ext) (fields : List Field) (rows : List 
       ∀ (j : Nat) (hj : j < arrs.length) (i : Nat), i < rows.length →
         ∃ lv, (cols[j]?.map (·.2[i]?)) = some (some lv) ∧
           Read.readAny Read.Fixes.all arrs[j] i = .ok (Read.toD arrs[j] lv) := by
-  obtain ⟨hlen, cols, hc1, hc2, hc3, hc4⟩ := Props.C01.C01_build_decode ext fields rows arrs hschema hcov hsafe hraw h
+  obtain ⟨hlen, cols, hc1, hc2, hc3, hc4⟩ := Props.C01.C01_build_decode ext fields rows arrs hschema hcov hsafe (fun x hx => Build.noRaw_ssa x (hraw x hx)) (Or.inl hraw) h
   obtain ⟨_, hrd⟩ := toMarrow_readable ext fields rows arrs hschema hsafe hext hrows hread h
   have hcl : cols.length = arrs.length := by
     have := congrArg List.length hc1; simpa using this.symm
@@ -215,7 +215,7 @@ theorem toMarrow_readRecord_partial (ext : Ext) (fields : List Field) (rows : Li
     Read.new Read.Fixes.all (Roundtrip.rootArr fields arrs rows.length) = .ok () ∧
     ∀ (i : Nat) (hi : i < rows.length), ∃ lv, interpRow ext fields rows[i] = .ok lv ∧
       Roundtrip.readRecord .any fields arrs i = .ok (Read.toD (Roundtrip.rootArr fields arrs rows.length) lv) := by
-  obtain ⟨hlen, cols, hc1, hc2, hc3, hc4⟩ := Props.C01.C01_build_decode ext fields rows arrs hschema hcov hsafe hraw h
+  obtain ⟨hlen, cols, hc1, hc2, hc3, hc4⟩ := Props.C01.C01_build_decode ext fields rows arrs hschema hcov hsafe (fun x hx => Build.noRaw_ssa x (hraw x hx)) (Or.inl hraw) h
   obtain ⟨_, hwf⟩ := C03_wf ext fields rows arrs hschema hsafe hext hrows h
   have hcols : Spec.wfFields (Fields.ofList fields) (Roundtrip.zipCols fields arrs) rows.length = true :=
     Roundtrip.zip_wf rows.length fields arrs hlen hwf
